@@ -50,6 +50,10 @@ func verifWrite(v any) {
 		b, _ = json.Marshal(map[string]string{"kind": "error", "err": err.Error()})
 	}
 	verifMu.Lock()
+	if len(b) > 2 && b[0] == '{' {
+		// every record carries the time it was written at, taken under the lock: times never go backwards in the file
+		b = append([]byte(`{"ts":`+strconv.FormatInt(time.Now().UnixNano(), 10)+`,`), b[1:]...)
+	}
 	_, _ = f.Write(append(b, '\n'))
 	verifMu.Unlock()
 }
